@@ -651,6 +651,21 @@ theorem getRows_fuel_irrelevant (toks : List Tok) (k : Nat) :
   simp only [List.length_nil]
   omega
 
+/-- clause "never allocate without bound", the streamed row: the blank padding of `rowXMLHandler` (a cell at
+column `c` of a row with `n` cells so far appends `c − n − 1` blanks) never makes a row of `Rows.Columns` wider
+than MaxColumns + remaining tokens, for EVERY state and token sequence whose parsable cell references lie in
+the grid — which is what `CellNameToCoordinates` guarantees (`decoded_refs_in_grid`, C20); cells without a
+reference follow the running column, one per token.  Extra hypothesis explicit: `ColsInGrid`. -/
+theorem rows_columns_width_bounded_partial (s : RowsState) (hG : ColsInGrid s.toks) :
+    (rowsColumns s).1 ≤ Facts.MaxColumns + s.toks.length :=
+  rowsColumns_width s hG
+
+/-- the hypothesis is not redundant: a column beyond the grid (which `CellNameToCoordinates` never returns)
+would be padded to — one `<c>` token, a row of 100000 entries -/
+theorem cols_in_grid_needed :
+    (rowsColumns { cur := 1, seek := 1, held := some 1, toks := [.cell (some 100000) false true, .endData] }).1 = 100000 := by
+  decide +kernel
+
 /-! ## every index taken from a struct field -/
 
 /-- the table of index / slice expressions of the read-side files whose index is a struct field — the
